@@ -541,6 +541,50 @@ fn run_product(rep: &mut Report, mode: Mode, tier: Tier) {
         rep.bounds["pumped-families"] = json!({"values": n, "thresholds": "0..=40 and 2^k +- 1 up to 4 097 (quick) / 65 537 (thorough)", "extra_width_limits": [254, 255, 256, 257, 65534, 65535, 65536, 65537]});
         rep.absorb(t);
     }
+    // depth x indentation: values nested d deep (alternating arrays and objects, a sibling leaf
+    // at every level) under every indent unit, with containers expanded at every level and
+    // with the pretty limits - the indentation of a line is depth x unit, two parameters at once
+    {
+        use refmodel::print::Indent;
+        let mut depths: Vec<usize> = (1..=40).collect();
+        depths.extend([47, 48, 49, 63, 64, 65, 85, 86, 127, 128, 129]);
+        if tier == Tier::Thorough {
+            depths.extend([255, 256, 257, 511, 512, 513]);
+        }
+        let mut units: Vec<Indent> = (0..=9).map(Indent::Spaces).collect();
+        units.extend([Indent::Spaces(15), Indent::Spaces(16), Indent::Spaces(17), Indent::Spaces(63), Indent::Spaces(64), Indent::Spaces(65), Indent::Spaces(255)]);
+        units.extend((0..=5).map(Indent::Tabs));
+        units.extend([Indent::Tabs(8), Indent::Tabs(255)]);
+        let nd = depths.len();
+        let nu = units.len();
+        let t = explore::par_tally(depths, |d, t| {
+            let mut rv = RV::num("0");
+            for level in (0..d).rev() {
+                rv = if level % 2 == 0 { RV::Arr(vec![RV::Bool(true), rv]) } else { RV::Obj(vec![("k".to_string(), rv), ("l".to_string(), RV::Null)]) };
+            }
+            let real = bridge::to_value(&rv);
+            for &u in &units {
+                // a large unit at a large depth is quadratic in the output: bound the product
+                let n = match u {
+                    Indent::Spaces(n) | Indent::Tabs(n) => n as usize,
+                };
+                if n * d > 40_000 {
+                    continue;
+                }
+                let mut o = Opts::pretty();
+                o.indent = u;
+                check_case(mode, &rv, &real, &o, t);
+                o.array_limit = Some(Limit::Always);
+                o.object_limit = Some(Limit::Always);
+                check_case(mode, &rv, &real, &o, t);
+            }
+            t.nontrivial(&("depth", d));
+            t.states += 1;
+            t.outcome("pumped:depth x indent");
+        });
+        rep.bounds["depth-x-indent"] = json!({"depths": nd, "indent_units": nu, "records": ["pretty", "pretty with Limit::Always"]});
+        rep.absorb(t);
+    }
     // thorough: the full {0,1}^12 grid x 3 indents x limits on F-shape size <= 4
     if tier == Tier::Thorough && !budget.expired() {
         let values = f_shape(4);
